@@ -472,7 +472,7 @@ func c17RerunRun(cfg C17Rerun) (viol []engine.Violation, outcome string, herr st
 		return nil, "", err.Error()
 	}
 	pool := model.Pool(0)
-	if err := h.ApplyWrite(server.VOp{K: "batch", DS: "S", Ents: []server.VEnt{{ID: "e0", C: model.PoolIndex(pool, "v1")}, {ID: "e1", C: model.PoolIndex(pool, "v1")}}}); err != nil {
+	if err := h.ApplyWrite(server.VOp{K: "batch", DS: "S", Ents: []server.VEnt{{ID: "e0", C: model.PoolIndex(pool, "v1")}, {ID: "e1", C: model.PoolIndex(pool, "v1")}, {ID: "e2", C: model.PoolIndex(pool, "v1")}}}); err != nil {
 		return nil, "", err.Error()
 	}
 	on := []map[string]interface{}{{"errorHandler": "reRun", "maxRetries": cfg.MaxRetries, "retryDelay": cfg.Delay}}
@@ -496,6 +496,7 @@ func c17RerunRun(cfg C17Rerun) (viol []engine.Violation, outcome string, herr st
 		}
 	}
 	attempt := 0
+	callsBefore := 0 // sink calls made by earlier attempts
 	inner := jb.pipeline.spec().sink
 	fs := &failSink{inner: inner, h: h}
 	fs.onCall = func(call int) error {
@@ -508,11 +509,20 @@ func c17RerunRun(cfg C17Rerun) (viol []engine.Violation, outcome string, herr st
 			return errors.New("sink: down")
 		case "kill":
 			jw.Runner.killJob(jc.ID)
+		case "rejkill":
+			// the sink refuses the first entity of the run (a log handler, if there is one, takes it), and the job is
+			// killed while the sink handles the second; a third is still to be read
+			switch call - callsBefore {
+			case 1:
+				return errors.New("sink: cannot store this one")
+			case 2:
+				jw.Runner.killJob(jc.ID)
+			}
 		}
 		return nil
 	}
 	jb.pipeline.spec().sink = fs
-	cp := &countingPipeline{inner: jb.pipeline, onRun: func() { attempt++ }}
+	cp := &countingPipeline{inner: jb.pipeline, onRun: func() { attempt++; callsBefore = fs.calls }}
 	jb.pipeline = cp
 	s := vsync.NewSched(nil, 4000)
 	var panicked string
@@ -670,7 +680,7 @@ func subsets(n int) [][]int {
 func init() {
 	engine.RegisterCheck("C17", func(r *engine.Run) {
 		r.Level = "fault_enumeration"
-		r.Rule = "FAULT ENUM: for every batch size b up to the bound the source holds two batches (2b entities) and EVERY subset of them is rejected (plus long runs of 12-40 batches with one rejected entity each, so that the number of bisections in one run exceeds 32) by a sink double (permanently), for every maxItems in 0..3 and both pipelines, plus transient sink failures (first r calls); real job, real wrappedSink / log handler / result recording; oracle: all other entities before the stopping point delivered exactly once, each rejected entity reported exactly once, nothing delivered or reported after the maxItems-th rejection, recorded outcome carries an error iff something was rejected. reRun: every maxRetries in 0..3 x every sequence of attempt outcomes {fail, ok, kill} up to length 4 (incremental; length 3 for fullsync jobs), timers owned by the controlled scheduler; oracle: run count, configured delay, no re-run after success or kill. Two triggers of one job type with their own onError lists (log handler with maxItems 0..2, or none; all 15 pairs), fired in 4 orders on the job objects the hub's cron holds (also after a restart), every subset of 2 or 4 entities rejected: each firing follows the handlers of the trigger that fired. distinct = distinct outcome digests"
+		r.Rule = "FAULT ENUM: for every batch size b up to the bound the source holds two batches (2b entities) and EVERY subset of them is rejected (plus long runs of 12-40 batches with one rejected entity each, so that the number of bisections in one run exceeds 32) by a sink double (permanently), for every maxItems in 0..3 and both pipelines, plus transient sink failures (first r calls); real job, real wrappedSink / log handler / result recording; oracle: all other entities before the stopping point delivered exactly once, each rejected entity reported exactly once, nothing delivered or reported after the maxItems-th rejection, recorded outcome carries an error iff something was rejected. reRun: every maxRetries in 0..3 x every sequence of attempt outcomes {fail, ok, kill, one entity rejected and then a kill} up to length 4 (incremental; length 3 for fullsync jobs), timers owned by the controlled scheduler; oracle: run count, configured delay, no re-run after success or kill. Two triggers of one job type with their own onError lists (log handler with maxItems 0..2, or none; all 15 pairs), fired in 4 orders on the job objects the hub's cron holds (also after a restart), every subset of 2 or 4 entities rejected: each firing follows the handlers of the trigger that fired. distinct = distinct outcome digests"
 		r.Assumptions = []string{"the sink double rejects whole calls, as a real sink does", "timers fire only when the controlled scheduler lets them (logical time)"}
 		maxB := 5
 		if !r.Quick() {
@@ -733,7 +743,7 @@ func init() {
 			if len(cur) == 4 || (len(cur) > 0 && cur[len(cur)-1] != "fail") {
 				return
 			}
-			for _, k := range []string{"fail", "ok", "kill"} {
+			for _, k := range []string{"fail", "ok", "kill", "rejkill"} {
 				gen(append(cur, k))
 			}
 		}
